@@ -132,17 +132,12 @@ func (o *ExpressionOptimizer) tryOptimizeBinaryOpExecute(e *BinaryOpExpr) (Expre
 			switch e.Left.(type) {
 			case *StringExpr:
 				return &StringExpr{Pos: leftPos, Data: ret.(string)}, true
-			case *NumberExpr:
+			case *NumberExpr, *FloatExpr:
+				// The literal must keep the type of the result, an integer
+				// combined with a float gives a float
 				switch cret := ret.(type) {
 				case int64:
 					return &NumberExpr{Pos: leftPos, Data: fmt.Sprintf("%v", cret), Int: cret}, true
-				case float64:
-					return &NumberExpr{Pos: leftPos, Data: fmt.Sprintf("%v", int64(cret)), Int: int64(cret)}, true
-				}
-			case *FloatExpr:
-				switch cret := ret.(type) {
-				case int64:
-					return &FloatExpr{Pos: leftPos, Data: fmt.Sprintf("%v", float64(cret)), Float: float64(cret)}, true
 				case float64:
 					return &FloatExpr{Pos: leftPos, Data: fmt.Sprintf("%v", cret), Float: cret}, true
 				}
